@@ -688,12 +688,12 @@ package swap
 //@ assigns s.lastMsgLog[swapId]
 
 //@ func newSwapOutReceiverFSM
-//@ trusted
+//@ property C09 C10 C11
 //@ ensures result != nil && result.SwapId == swapId && result.Data != nil && result.Data.PeerNodeId == peer && result.swapServices == services && result.Type == SWAPTYPE_OUT && result.Role == SWAPROLE_RECEIVER
 //@ assigns nothing
 
 //@ func newSwapInReceiverFSM
-//@ trusted
+//@ property C09 C10 C11
 //@ ensures result != nil && result.SwapId == swapId && result.Data != nil && result.Data.PeerNodeId == peer && result.swapServices == services && result.Type == SWAPTYPE_IN && result.Role == SWAPROLE_RECEIVER
 //@ assigns nothing
 
@@ -861,19 +861,19 @@ package swap
 //@ requires swap != nil && swap.Data != nil && s != nil && s.activeSwaps != nil && s.swapServices != nil && !ghost.dirty && !ghost.recovered && ghost.msgPeer == ""
 
 //@ func swapInSenderFromStore
-//@ trusted
+//@ property C07 C15
 //@ ensures result == smData
 //@ assigns smData.swapServices, smData.States
 //@ func swapInReceiverFromStore
-//@ trusted
+//@ property C07 C15
 //@ ensures result == smData
 //@ assigns smData.swapServices, smData.States
 //@ func swapOutSenderFromStore
-//@ trusted
+//@ property C07 C15
 //@ ensures result == smData
 //@ assigns smData.swapServices, smData.States
 //@ func swapOutReceiverFromStore
-//@ trusted
+//@ property C07 C15
 //@ ensures result == smData
 //@ assigns smData.swapServices, smData.States
 
@@ -899,11 +899,11 @@ package swap
 // CSV refund (local initiations; incoming requests are C11's allowlisted step)
 // ---------------------------------------------------------------------------
 //@ func newSwapOutSenderFSM
-//@ trusted
+//@ property C26
 //@ ensures result != nil && result.SwapId != nil && result.Data != nil && result.Data.PeerNodeId == peerNodeId && result.swapServices == services
 //@ assigns nothing
 //@ func newSwapInSenderFSM
-//@ trusted
+//@ property C26
 //@ ensures result != nil && result.SwapId != nil && result.Data != nil && result.Data.PeerNodeId == peerNodeId && result.swapServices == services
 //@ assigns nothing
 
